@@ -512,23 +512,39 @@ def check_sanity(ctx: Ctx, f: FuncInfo, negated: bool, what: str) -> None:
     # a failure always ends in `return False`: directly, or by being collected and reported after the level
     collected: Optional[str] = None
 
-    def ends_false(stmts: List[ast.stmt]) -> bool:
+    def ends_false(stmts: List[ast.stmt]) -> str:
+        """'yes': every path through ``stmts`` ends in a negative verdict or records the permutation; 'fall': some path runs off the
+        end having done nothing but output; 'no': some path ends in another verdict; 'unknown': a statement that is not understood"""
         nonlocal collected
         for st in stmts:
             if isinstance(st, ast.Return):
                 v = st.value.elts[0] if isinstance(st.value, ast.Tuple) else st.value
-                return isinstance(v, ast.Constant) and v.value is False
+                return "yes" if isinstance(v, ast.Constant) and v.value is False else "no"
             if isinstance(st, ast.If):
-                if not (ends_false(st.body) and ends_false(st.orelse)):
-                    return False
-                return True
+                b, o = ends_false(st.body), ends_false(st.orelse)
+                if "unknown" in (b, o):
+                    return "unknown"
+                if "no" in (b, o):
+                    return "no"
+                if b == o == "yes":
+                    return "yes"
+                continue  # at least one branch falls through to what follows
             if isinstance(st, ast.Expr) and isinstance(st.value, ast.Call) and isinstance(st.value.func, ast.Attribute) and st.value.func.attr == "append" \
                     and [unparse(a) for a in st.value.args] == [e] and isinstance(st.value.func.value, ast.Name):
                 collected = st.value.func.value.id
-                return True
-        return False
+                return "yes"
+            if isinstance(st, ast.Pass) or (isinstance(st, ast.Expr) and isinstance(st.value, ast.Call) and (call_name(st.value) == ("print",) or (call_name(st.value) or ("",))[0] in ("logger", "logging"))) \
+                    or (isinstance(st, ast.Expr) and isinstance(st.value, ast.Constant)):
+                continue
+            if isinstance(st, (ast.Break, ast.Continue)):
+                return "fall"
+            return "unknown"
+        return "fall"
 
-    if not ends_false(tests[0].body) or tests[0].orelse:
+    verdict = ends_false(tests[0].body)
+    if verdict == "unknown" or (tests[0].orelse and verdict == "yes" and any(not isinstance(x, (ast.Pass, ast.Continue)) for x in tests[0].orelse)):
+        raise AnalysisError(f"{f.where}: what happens with a failing permutation is not recognised")
+    if verdict != "yes":
         ctx.violation("C17-A2", f, tests[0], "a failing permutation does not lead to a negative verdict on every path")
         return
     if collected is not None:
